@@ -20,7 +20,7 @@ SVG_NAMES = """svg foreignObject foreignobject desc title path g circle use altG
 lineargradient textPath script style a font image""".split()
 MATH_NAMES = "math mi mo mn ms mtext annotation-xml mglyph malignmark semantics mrow".split()
 ODD_NAMES = ["a\xc9", "a\xe9", "a\u212a", "ak", "a\u0130", "ai\u0307", "m\u03a9", "m\u03c9", "a}b", "o:p", "x\xa0y", "x", "m", "h", "ht", "htm", "tml", "a:b", "xlink:href", "é", "a<b", "a\"b", "a=b", "p\x00", "DIV", "Table",
-             "sVg", "MATH", "h7", "x-y", "a1", "tr/", "b\ud800", "x}pre", "my}script", "t}textarea", "{a}style", "p}", "{http://www.w3.org/1999/xhtml}pre", "\U0001F600x".replace("\U0001F600", "q\U0001F600")]
+             "sVg", "MATH", "h7", "x-y", "a1", "tr/", "b\ud800", "x}pre", "my}script", "t}textarea", "p}", "\U0001F600x".replace("\U0001F600", "q\U0001F600")]
 
 FORMATTING = "a b big code em font i nobr s small strike strong tt u".split()
 TABLE = "table caption colgroup col tbody thead tfoot tr td th".split()
